@@ -149,7 +149,7 @@ def gen_sep(rng, big):
 
 
 CLOUD_STYLES = ['scattered', 'scattered', 'scattered', 'lattice', 'lattice', 'lattice', 'partial-lattice',
-                'lines', 'shared-coords', 'collinear']
+                'lines', 'shared-coords', 'collinear', 'scattered3d', 'scattered3d']
 LATTICE_ORDERS = ['native', 'y-fastest', 'rows-reversed', 'columns-reversed', 'both-reversed', 'shuffled', 'y-fastest-reversed']
 
 
@@ -162,6 +162,17 @@ def gen_cloud(rng, big, style):
     """Point clouds stored as UNSTRUCTURED grids.  Besides generic scattered points: full lattices in every storage
     order, lattices with holes, points on a few lines, points sharing coordinates per axis, fully collinear clouds."""
     info = {}
+    if style == 'scattered3d':
+        # 3-D scattered cloud (LinearNDInterpolator / Delaunay in 3-D: tetrahedra), some points sharing coordinates
+        n = int(rng.integers(5, 15 if big else 11))
+        while True:
+            pts = sorted(set((dyadic(rng, -2, 2, 2), dyadic(rng, -2, 2, 2), dyadic(rng, -2, 2, 1)) for _ in range(n)))
+            pts = [list(q) for q in pts]
+            a = np.array(pts, dtype=float)
+            if len(pts) >= 5 and np.linalg.matrix_rank(a[1:] - a[0]) == 3:
+                break
+        rng.shuffle(pts)
+        return [list(map(float, q)) for q in pts], info
     if style == 'scattered':
         n = int(rng.integers(4, 25 if big else 13))
         while True:
@@ -251,10 +262,11 @@ def gen_uns(rng, big):
     style = str(rng.choice(CLOUD_STYLES))
     pts, info = gen_cloud(rng, big, style)
     affine = bool(rng.random() < 0.6)
+    nd = len(pts[0])
     case = {'fam': 'uns', 'pts_src': pts, 'cloud': style}
     case.update(info)
     if affine:
-        c0, c = affine_coeffs(rng, 2)
+        c0, c = affine_coeffs(rng, nd)
         case['affine'] = [c0, c]
     else:
         case['vals'] = [dyadic(rng, -8, 8, 3) for _ in range(len(pts))]
@@ -269,14 +281,20 @@ def gen_uns(rng, big):
             if u < 0.2:
                 ev.append(list(pts[int(rng.integers(0, len(pts)))]))          # a sample point
             elif u < 0.85:
-                i, j, k = [int(t) for t in rng.integers(0, len(pts), 3)]
-                # weights a/8, b/8, (8-a-b)/8 >= 0
-                a = int(rng.integers(0, 9)); b = int(rng.integers(0, 9 - a)); c = 8 - a - b
-                ev.append([(a * pts[i][0] + b * pts[j][0] + c * pts[k][0]) / 8.0, (a * pts[i][1] + b * pts[j][1] + c * pts[k][1]) / 8.0])
+                # a convex combination of nd+1 sample points with weights k/8 >= 0 (zeros: faces, edges, vertices)
+                idx = [int(t) for t in rng.integers(0, len(pts), nd + 1)]
+                w, left = [], 8
+                for _ in range(nd):
+                    w.append(int(rng.integers(0, left + 1)))
+                    left -= w[-1]
+                w.append(left)
+                ev.append([sum(wk * pts[i][t] for wk, i in zip(w, idx)) / 8.0 for t in range(nd)])
             else:
-                ev.append([dyadic(rng, -5, 5, 3), dyadic(rng, -5, 5, 3)])     # anywhere (maybe outside the hull)
+                ev.append([dyadic(rng, -5, 5, 3) for _ in range(nd)])     # anywhere (maybe outside the hull)
     case['pts'] = ev
-    if style == 'scattered':
+    if style == 'scattered3d':
+        case['route'] = str(rng.choice(['dispatch', 'dispatch-fill0', 'unstructured-default', 'unstructured-fill0']))
+    elif style == 'scattered':
         case['route'] = str(rng.choice(['dispatch', 'unstructured-default', 'unstructured-fill0']))
     else:
         # structured / degenerate clouds always go through the public dispatching front ends
@@ -285,6 +303,14 @@ def gen_uns(rng, big):
 
 
 TENSOR_SHAPES = [[], [], [2], [3], [2, 2]]
+# physical scale of the coordinates of the grid a field is binned on / supersampled on: exact powers of two from
+# 2^-30 (~1e-9: radians in a focal plane) to 2^30 (~1e9), so that coordinates, spacings and weights stay exact
+COORD_SCALES = [1.0] * 5 + [2.0 ** k for k in (-30, -27, -24, -20, -17, -14, -10, -7, 7, 10, 20, 30)]
+
+
+def scale_label(S):
+    import math
+    return '2^%d' % int(round(math.log2(S)))
 
 
 def gen_bins(rng, big):
@@ -299,9 +325,16 @@ def gen_bins(rng, big):
         ss = [ss[0]] * ndim
         spell = str(rng.choice(['array', 'list', 'array1', 'list1']))
     nfine = int(np.prod([d * f for d, f in zip(dims, ss)]))
-    return {'fam': 'bin', 'dims': dims, 'ss': ss, 'spell': spell, 'stat': str(rng.choice(['sum', 'mean'])),
+    case = {'fam': 'bin', 'dims': dims, 'ss': ss, 'spell': spell, 'stat': str(rng.choice(['sum', 'mean'])),
             'delta': [float(rng.choice([0.25, 0.5, 1.0, 2.0])) * (-1.0 if rng.random() < 0.3 else 1.0) for _ in range(ndim)],
-            'vals': [dyadic(rng, -8, 8, 3) for _ in range(nfine)], 'give_grid': bool(rng.random() < 0.5)}
+            'vals': [dyadic(rng, -8, 8, 3) for _ in range(nfine)], 'give_grid': bool(rng.random() < 0.5),
+            'S': float(rng.choice(COORD_SCALES))}
+    if rng.random() < 0.4 and all(d * f >= 2 for d, f in zip(dims, ss)):
+        # per-axis factors on a non-regular (irregularly spaced separated) grid: weighted mean, new_grid mandatory
+        case['axes'] = [(lambda k: k[::-1] if rng.random() < 0.4 else k)(gen_knots(rng, d * f, 2)) for d, f in zip(dims, ss)]
+        case['give_grid'] = True
+        case['stat'] = str(rng.choice(['mean', 'mean', 'sum']))
+    return case
 
 
 def gen_bin(rng, big):
@@ -319,7 +352,7 @@ def gen_bin(rng, big):
     case = {'fam': 'bin', 'dims': dims, 's': s, 'tshape': tshape, 'regular': regular,
             'stat': str(rng.choice(['sum', 'mean'])),
             'vals': [dyadic(rng, -8, 8, 3) for _ in range(ncomp * nfine)],
-            'give_grid': bool(rng.random() < 0.5) or not regular}
+            'give_grid': bool(rng.random() < 0.5) or not regular, 'S': float(rng.choice(COORD_SCALES))}
     if regular:
         case['delta'] = [float(rng.choice([0.25, 0.5, 1.0, 2.0])) * (-1.0 if rng.random() < 0.4 else 1.0) for _ in range(ndim)]
     else:
@@ -340,8 +373,14 @@ def gen_ss(rng, big):
     scalar_n = bool(rng.random() < 0.5)
     if scalar_n:
         ns = [ns[0]] * ndim
+    S = float(rng.choice(COORD_SCALES))
+    if S != 1.0:
+        # the same grid and the same function in another unit of length (exact: S is a power of two)
+        axes = [[x * S for x in a] for a in axes]
+        c = [ck / S for ck in c]
+        quad = [qk / (S * S) for qk in quad]
     return {'fam': 'ss', 'via': pick_via(rng, axes), 'regular': regular, 'axes': axes, 'c0': c0, 'c': c, 'q': quad, 'ns': ns, 'scalar_n': scalar_n,
-            'stat': str(rng.choice(['mean', 'mean', 'sum']))}
+            'stat': str(rng.choice(['mean', 'mean', 'sum'])), 'S': S}
 
 
 # ---------------------------------------------------------------------------------------------
@@ -462,6 +501,10 @@ def run_sep(case):
                 bad.append(('separated-linear', 'linear interpolator does not return the samples at the sample points (%s grid)' % cls))
         lines.append('C18 lin-sep new %s %s %s %s' % ('ext' if mode == 'ext' else 'fill', rat_lists(axes), rat_list(vals), rat_lists(pts)))
         cmps.append(('lin-sep', got, {'nan': 0.0 if mode == 'fill0' else None}))
+        if 'affine' in case:
+            # the field handed to the real interpolator is the model's `sampleAffine` (hypothesis of the affine theorems)
+            lines.append('C18 sample-affine %s %s %s' % (rat_lists(axes), rat(c0), rat_list(c)))
+            cmps.append(('sample-affine', list(vals), {}))
     # ---- nearest
     try:
         interp = hcipy.make_nearest_interpolator(field) if route == 'dispatch' else hcipy.make_nearest_interpolator_separated(field)
@@ -492,6 +535,41 @@ def run_sep(case):
     return bad, lines, cmps, info
 
 
+def solve_bary(verts, fp):
+    """exact barycentric coordinates (Fractions) of `fp` in the d-simplex `verts` (d+1 points) by Gaussian elimination
+    — deliberately not Cramer's rule, which is what the Lean model runs; None for a degenerate simplex"""
+    d = len(fp)
+    v0 = verts[0]
+    # unknowns l_1..l_d:  sum_i l_i (v_i - v_0) = fp - v_0
+    A = [[verts[i + 1][r] - v0[r] for i in range(d)] + [fp[r] - v0[r]] for r in range(d)]
+    for col in range(d):
+        piv = next((r for r in range(col, d) if A[r][col] != 0), None)
+        if piv is None:
+            return None
+        A[col], A[piv] = A[piv], A[col]
+        A[col] = [x / A[col][col] for x in A[col]]
+        for r in range(d):
+            if r != col and A[r][col] != 0:
+                f = A[r][col]
+                A[r] = [x - f * y for x, y in zip(A[r], A[col])]
+    sol = [A[r][d] for r in range(d)]
+    return [1 - sum(sol)] + sol
+
+
+def hull_location(lam, ids, facets):
+    """the same exact rule as the Lean model's `hullLoc` (the two are compared through the op simplex-loc): outside the
+    simplex if some coordinate is negative; on the boundary of the hull if all vertices that carry weight belong to one
+    hull facet; inside otherwise"""
+    if any(x < 0 for x in lam):
+        return 'outside'
+    supp = set(i for x, i in zip(lam, ids) if x != 0)
+    return 'boundary' if any(supp <= set(f) for f in facets) else 'inside'
+
+
+def nat_lists(ls):
+    return ';'.join('[' + ','.join(str(int(v)) for v in l) + ']' for l in ls) if ls else '-'
+
+
 def find_scipy_interp(fn):
     for c in (fn.__closure__ or []):
         try:
@@ -507,7 +585,8 @@ def run_uns(case):
     import hcipy
     bad, lines, cmps = [], [], []
     src = case['pts_src']
-    grid = hcipy.CartesianGrid(hcipy.UnstructuredCoords([np.array([p[0] for p in src]), np.array([p[1] for p in src])]))
+    nd = len(src[0])
+    grid = hcipy.CartesianGrid(hcipy.UnstructuredCoords([np.array([p[k] for p in src]) for k in range(nd)]))
     if 'affine' in case:
         c0, c = case['affine']
         vals = [float(aff(c0, c, p)) for p in src]
@@ -518,7 +597,7 @@ def run_uns(case):
     if case.get('eval_self'):
         egrid = grid
     else:
-        egrid = hcipy.CartesianGrid(hcipy.UnstructuredCoords([np.array([p[0] for p in pts]), np.array([p[1] for p in pts])]))
+        egrid = hcipy.CartesianGrid(hcipy.UnstructuredCoords([np.array([p[k] for p in pts]) for k in range(nd)]))
     route = case['route']
     got = None
     collinear = case.get('cloud') == 'collinear'
@@ -549,55 +628,55 @@ def run_uns(case):
                 got = None
         except Exception as e:  # noqa
             bad.append(('unstructured-linear', 'linear interpolator on an unstructured grid raised %s' % type(e).__name__))
-        sci = find_scipy_interp(interp)
-        tri = sci.tri if sci is not None else None
+        try:
+            sci = find_scipy_interp(interp)
+            tri = sci.tri if sci is not None else None
+        except Exception:  # noqa
+            tri = None
     inside, boundary = [], []
+    nloc = 0
     if not collinear:
         have_scipy_object = tri is not None
         if tri is None:
             import scipy.spatial
             tri = scipy.spatial.Delaunay(np.array(src, dtype=float))
         simp = tri.find_simplex(np.array(pts, dtype=float))
-        # exact location of every evaluation point with respect to the convex hull (Fractions)
+        # exact location of every evaluation point with respect to the triangulation and the convex hull (Fractions):
+        # the simplex SciPy found (or, where it answers -1, any simplex that contains the point exactly), the barycentric
+        # coordinates in it, and the hull facets `Delaunay.convex_hull`
         fsrc2 = [frl(p) for p in src]
         simplices = [[int(v) for v in sx] for sx in tri.simplices]
-        hull_edges = [[int(v) for v in e] for e in tri.convex_hull]
+        facets = [[int(v) for v in e] for e in tri.convex_hull]
+        facets_tok = nat_lists(facets)
 
-        def bary(sx, fp):
-            (ax, ay), (bx, by), (cx, cy) = [fsrc2[v] for v in sx]
-            det = (bx - ax) * (cy - ay) - (cx - ax) * (by - ay)
-            if det == 0:
-                return None
-            l1 = ((fp[0] - ax) * (cy - ay) - (cx - ax) * (fp[1] - ay)) / det
-            l2 = ((bx - ax) * (fp[1] - ay) - (fp[0] - ax) * (by - ay)) / det
-            return [1 - l1 - l2, l1, l2]
-
-        def in_closed_hull(fp):
-            for sx in simplices:
-                lam = bary(sx, fp)
+        def locate(p, sx):
+            """(location, simplex ids, barycentric coordinates) of p; location 'outside' = outside the closed hull"""
+            fp = frl(p)
+            cands = ([simplices[int(sx)]] if int(sx) >= 0 else []) + simplices
+            for ids in cands:
+                lam = solve_bary([fsrc2[v] for v in ids], fp)
                 if lam is not None and all(x >= 0 for x in lam):
-                    return True
-            return False
+                    return hull_location(lam, ids, facets), ids, lam
+            return 'outside', None, None
 
-        def on_hull_boundary(fp):
-            for i, j in hull_edges:
-                (ax, ay), (bx, by) = fsrc2[i], fsrc2[j]
-                cr = (bx - ax) * (fp[1] - ay) - (by - ay) * (fp[0] - ax)
-                if cr == 0:
-                    t = (fp[0] - ax) * (bx - ax) + (fp[1] - ay) * (by - ay)
-                    if 0 <= t <= (bx - ax) ** 2 + (by - ay) ** 2:
-                        return True
-            return False
-
-        inside = [in_closed_hull(frl(p)) for p in pts]
-        boundary = [ins and on_hull_boundary(frl(p)) for ins, p in zip(inside, pts)]
+        located = [locate(p, sx) for p, sx in zip(pts, simp)]
+        inside = [loc != 'outside' for loc, _, _ in located]
+        boundary = [loc == 'boundary' for loc, _, _ in located]
+        for p, (loc, ids, lam) in zip(pts, located):
+            if ids is not None:
+                # the Lean model classifies the same point from the same simplex (op simplex-loc: `baryN`, `hullLoc`)
+                lines.append('C18 simplex-loc %s %s %s %s' % (rat_lists([src[v] for v in ids]), '[' + ','.join(str(v) for v in ids) + ']', facets_tok, rat_list(p)))
+                cmps.append(('simplex-loc', (loc, lam), {}))
+                nloc += 1
         fillv = 0.0 if route in ('unstructured-fill0', 'dispatch-fill0') else None
         if got is not None:
             lookup = {tuple(p): v for p, v in zip(src, vals)}
             reported = set()
-            for g, p, ins, bnd, sx in zip(got, pts, inside, boundary, simp):
-                # the recorded SciPy finding has a precise signature: a point on the hull boundary that SciPy's point
-                # location reports outside, and that therefore gets the fill value; anything else is a plain failure
+            for g, p, ins, bnd, sx, (loc, ids, lam) in zip(got, pts, inside, boundary, simp, located):
+                # the recorded SciPy finding has a precise signature, decided in exact arithmetic (and compared with the
+                # Lean model's `hullLoc`): a point ON the boundary of the convex hull that SciPy's point location reports
+                # outside, and that therefore gets the fill value; anything else — in particular a fill value at a point
+                # strictly inside the hull — is a plain failure
                 is_fill = (g != g) if fillv is None else (g == fillv)
                 key = 'unstructured-linear-hull-boundary' if (bnd and int(sx) < 0 and is_fill) else 'unstructured-linear'
                 what = None
@@ -605,11 +684,11 @@ def run_uns(case):
                     if 'affine' in case:
                         w = float(aff(c0, c, p))
                         if not abs(g - w) <= TOL * max(1.0, abs(w)):
-                            what = 'affine field not reproduced at %r %s of a scattered grid: got %r, expected %r' % (
-                                p, 'on the boundary of the hull' if bnd else 'inside the hull', g, w)
+                            what = 'affine field not reproduced at %r %s of a scattered %d-D grid: got %r, expected %r' % (
+                                p, 'on the boundary of the hull' if bnd else 'inside the hull', nd, g, w)
                     if what is None and tuple(p) in lookup and not abs(g - lookup[tuple(p)]) <= TOL * max(1.0, abs(lookup[tuple(p)])):
-                        what = 'sample value not returned at the sample point %r%s of a scattered grid: got %r' % (
-                            p, ' (a vertex of the hull)' if bnd else '', g)
+                        what = 'sample value not returned at the sample point %r%s of a scattered %d-D grid: got %r' % (
+                            p, ' (on the boundary of the hull)' if bnd else '', nd, g)
                     if what is None and int(sx) < 0:
                         what = 'point %r %s got the fill value' % (p, 'on the boundary of the hull' if bnd else 'inside the hull')
                 else:
@@ -620,9 +699,13 @@ def run_uns(case):
                     bad.append((key, what))
                 if int(sx) >= 0 and what is None and (have_scipy_object or case.get('cloud', 'scattered') == 'scattered'):
                     vs = [int(v) for v in tri.simplices[int(sx)]]
-                    t = [src[v][k] for v in vs for k in (0, 1)]
-                    lines.append('C18 lin-tri %s %s %s' % (rat_list(t), rat_list([vals[v] for v in vs]), rat_list(p)))
-                    cmps.append(('lin-tri', [g], {'nan': None}))
+                    if nd == 2:
+                        t = [src[v][k] for v in vs for k in (0, 1)]
+                        lines.append('C18 lin-tri %s %s %s' % (rat_list(t), rat_list([vals[v] for v in vs]), rat_list(p)))
+                        cmps.append(('lin-tri', [g], {'nan': None}))
+                    # the general executed interpolant (`linearSimplex`, any dimension) on the simplex SciPy found
+                    lines.append('C18 lin-simplex %s %s %s' % (rat_lists([src[v] for v in vs]), rat_list([vals[v] for v in vs]), rat_list(p)))
+                    cmps.append(('lin-simplex', [g], {'nan': None}))
     # ---- nearest
     gotn = None
     try:
@@ -651,7 +734,8 @@ def run_uns(case):
                 break
         lines.append('C18 near-uns %s %s %s' % (rat_lists(src), rat_list(vals), rat_lists(pts)))
         cmps.append(('near-uns', gotn, {}))
-    info = {'n_src': len(src), 'n_inside': sum(inside), 'n_outside': len(inside) - sum(inside), 'npts': len(pts), 'n_boundary': sum(boundary)}
+    info = {'n_src': len(src), 'n_inside': sum(inside), 'n_outside': len(inside) - sum(inside), 'npts': len(pts), 'n_boundary': sum(boundary),
+            'nd': nd, 'n_located': nloc}
     return bad, lines, cmps, info
 
 
@@ -688,19 +772,30 @@ def run_bins(case):
     import hcipy
     bad, lines, cmps = [], [], []
     dims, ss, stat = case['dims'], case['ss'], case['stat']
+    S = case.get('S', 1.0)
     nd = len(dims)
     fine = [d * f for d, f in zip(dims, ss)]
-    grid = hcipy.CartesianGrid(hcipy.RegularCoords(case['delta'], fine, [0.0] * nd))
+    irregular = 'axes' in case
+    if irregular:
+        fine_axes = [[x * S for x in a] for a in case['axes']]
+        grid = make_grid(fine_axes, False)
+    else:
+        grid = hcipy.CartesianGrid(hcipy.RegularCoords([d * S for d in case['delta']], fine, [0.0] * nd))
     arg = {'array': lambda: np.array(ss), 'list': lambda: list(ss), 'float-array': lambda: np.array(ss, dtype=float),
            'array1': lambda: np.array(ss[:1]), 'list1': lambda: list(ss[:1])}[case['spell']]()
-    info = {'per_axis': True}
+    weighted = irregular and stat == 'mean'
+    info = {'per_axis': True, 'weighted': weighted, 'irregular': irregular}
     try:
-        new_grid = hcipy.make_subsampled_grid(grid, arg) if case['give_grid'] else None
+        if irregular:
+            coarse_axes = [[float(np.mean(a[i * f:(i + 1) * f])) for i in range(d)] for a, d, f in zip(fine_axes, dims, ss)]
+            new_grid = hcipy.CartesianGrid(hcipy.SeparatedCoords([np.array(a) for a in coarse_axes]))
+        else:
+            new_grid = hcipy.make_subsampled_grid(grid, arg) if case['give_grid'] else None
         res = hcipy.subsample_field(hcipy.Field(np.array(case['vals'], dtype=float), grid), arg, new_grid, statistic=stat)
     except Exception as e:  # noqa
-        bad.append(('binning-per-axis-factors-raises', 'subsample_field(field, %r (%s), statistic=%r) on a %r grid raised %s: %s (the docstring '
+        bad.append(('binning-per-axis-factors-raises', 'subsample_field(field, %r (%s), statistic=%r) on a %r %s grid (coordinate scale %s) raised %s: %s (the docstring '
                     'promises "if this is an array, the subsampling factor will be different for each dimension")'
-                    % (ss, case['spell'], stat, fine, type(e).__name__, str(e)[:80])))
+                    % (ss, case['spell'], stat, fine, 'non-regular' if irregular else 'regular', scale_label(S), type(e).__name__, str(e)[:80])))
         return bad, lines, cmps, info
     out = np.asarray(res, dtype=float)
     ncoarse = int(np.prod(dims))
@@ -711,17 +806,34 @@ def run_bins(case):
     if rg is None or rg.size != ncoarse or (new_grid is not None and rg is not new_grid) or [int(d) for d in rg.dims] != dims:
         bad.append(('binning-grid', 'binned field does not live on the coarse grid %r' % (dims,)))
     p = frl(case['vals'])
-    want = brute_bins(p, dims, ss)
-    if stat == 'mean':
-        want = [x / int(np.prod(ss)) for x in want]
+    sd, sdims = '[' + ','.join(str(f) for f in ss[::-1]) + ']', '[' + ','.join(str(d) for d in dims[::-1]) + ']'
+    if weighted:
+        w = frl(np.asarray(grid.weights, dtype=float) * np.ones(len(p)))
+        num, den = brute_bins([a * b for a, b in zip(p, w)], dims, ss), brute_bins(w, dims, ss)
+        want = [a / b for a, b in zip(num, den)]
+    else:
+        want = brute_bins(p, dims, ss)
+        if stat == 'mean':
+            want = [x / int(np.prod(ss)) for x in want]
     err = cmp_vals([float(x) for x in out], want)
     if err is None or err > TOL:
-        bad.append(('binning-value', '%s-binning by the per-axis factors %r differs from the brute-force bins' % (stat, ss)))
-    lines.append('C18 bins %s %s %s %s' % (stat, '[' + ','.join(str(f) for f in ss[::-1]) + ']', '[' + ','.join(str(d) for d in dims[::-1]) + ']', rat_list(case['vals'])))
+        bad.append(('binning-value', '%s-binning by the per-axis factors %r on a %s grid with coordinates of scale %s differs from the brute-force %sbins'
+                    % (stat, ss, 'non-regular' if irregular else 'regular', scale_label(S), 'weighted ' if weighted else '')))
+    elif weighted:
+        # conservation of the weighted total, relative to the size of the weights (the unit of the coordinates is arbitrary)
+        tot = sum(a * b for a, b in zip(p, w))
+        tot_b = sum(fr(x) * d for x, d in zip(out, den))
+        if abs(float(tot_b - tot)) > TOL * float(sum(abs(a * b) for a, b in zip(p, w))):
+            bad.append(('binning-mean-not-conserved', 'weighted mean not conserved on a non-regular grid (per-axis factors %r, coordinate scale %s)' % (ss, scale_label(S))))
+    if weighted:
+        lines.append('C18 binws %s %s %s %s' % (sd, sdims, rat_list(case['vals']), rat_list([float(x) for x in w])))
+        cmps.append(('binws', [float(x) for x in out], {}))
+        return bad, lines, cmps, info
+    lines.append('C18 bins %s %s %s %s' % (stat, sd, sdims, rat_list(case['vals'])))
     cmps.append(('bins', [float(x) for x in out], {}))
     if stat == 'sum':
         # the closed form of the index map (`boxSums`, theorem bins_pixel), every coarse pixel
-        lines.append('C18 binpix %s %s %s' % ('[' + ','.join(str(f) for f in ss[::-1]) + ']', '[' + ','.join(str(d) for d in dims[::-1]) + ']', rat_list(case['vals'])))
+        lines.append('C18 binpix %s %s %s' % (sd, sdims, rat_list(case['vals'])))
         cmps.append(('binpix', [float(x) for x in out], {}))
         info['binpix'] = 1
     return bad, lines, cmps, info
@@ -737,13 +849,15 @@ def run_bin(case):
     ncoarse = int(np.prod(dims))
     nfine = ncoarse * s ** nd
     ncomp = int(np.prod(tshape)) if tshape else 1
+    S = case.get('S', 1.0)      # physical scale of the coordinates (exact power of two)
     if case['regular']:
-        fine_axes = [[case['delta'][k] * i for i in range(dims[k] * s)] for k in range(nd)]
+        delta = [d * S for d in case['delta']]
+        fine_axes = [[delta[k] * i for i in range(dims[k] * s)] for k in range(nd)]
         grid = make_grid(fine_axes, True) if all(len(a) > 1 for a in fine_axes) else \
-            hcipy.CartesianGrid(hcipy.RegularCoords(case['delta'], [d * s for d in dims], [0.0] * nd))
+            hcipy.CartesianGrid(hcipy.RegularCoords(delta, [d * s for d in dims], [0.0] * nd))
         new_grid = hcipy.make_subsampled_grid(grid, s) if case['give_grid'] else None
     else:
-        fine_axes = case['axes']
+        fine_axes = [[x * S for x in a] for a in case['axes']]
         grid = make_grid(fine_axes, False)
         coarse_axes = [[float(np.mean(a[i * s:(i + 1) * s])) for i in range(d)] for a, d in zip(fine_axes, dims)]
         new_grid = hcipy.CartesianGrid(hcipy.SeparatedCoords([np.array(a) for a in coarse_axes]))
@@ -777,7 +891,8 @@ def run_bin(case):
                 want = [x / (s ** nd) for x in want]
         err = cmp_vals([float(x) for x in comps_out[k]], want)
         if err is None or err > TOL:
-            bad.append(('binning-value', '%s-binning by %d of component %d differs from the brute-force bins' % (stat, s, k)))
+            bad.append(('binning-value', '%s-binning by %d of component %d on a %s grid with coordinates of scale %s differs from the brute-force %sbins'
+                        % (stat, s, k, 'regular' if case['regular'] else 'non-regular', scale_label(S), 'weighted ' if weighted else '')))
             break
         sc = max(1.0, float(sum(abs(x) for x in p)))
         if stat == 'sum' and abs(float(np.sum(comps_out[k])) - float(sum(p))) > TOL * sc:
@@ -789,8 +904,9 @@ def run_bin(case):
         if weighted:
             tot = sum(a * b for a, b in zip(p, w))
             tot_b = sum(Fraction(*float(x).as_integer_ratio()) * d for x, d in zip(comps_out[k], den))
-            if abs(float(tot_b - tot)) > TOL * max(1.0, float(sum(abs(a * b) for a, b in zip(p, w)))):
-                bad.append(('binning-mean-not-conserved', 'weighted mean not conserved on a non-regular grid'))
+            # relative to the size of the weights: the unit of the coordinates is arbitrary
+            if abs(float(tot_b - tot)) > TOL * float(sum(abs(a * b) for a, b in zip(p, w))):
+                bad.append(('binning-mean-not-conserved', 'weighted mean not conserved on a non-regular grid (coordinate scale %s)' % scale_label(S)))
                 break
         # independence of tensor components: bin the component alone
         if ncomp > 1:
@@ -820,6 +936,27 @@ def run_bin(case):
                 cmps.append(('binpix', [float(x) for x in comps_out[k]], {}))
                 npix += 1
     return bad, lines, cmps, {'weighted': weighted, 'ncomp': ncomp, 'binpix': npix}
+
+
+def ss_reference(axes, c0, c, q, ns, stat):
+    """brute-force exact reference for evaluate_supersampled of c0 + Σ c·x + Σ q·x² on the separated grid `axes`
+    (x-axis first): per point the sum / mean over the n_x·n_y·… dithered copies x + d·δ, d = (j+1/2)/n - 1/2,
+    δ = the local cell width (one-sided at the ends).  Independent of the Lean model."""
+    per_axis = []
+    for k, (a, n) in enumerate(zip(axes, ns)):
+        fa = frl(a)
+        dl = [fa[1] - fa[0]] + [(fa[i + 1] - fa[i - 1]) / 2 for i in range(1, len(fa) - 1)] + [fa[-1] - fa[-2]]
+        ds = [Fraction(2 * j + 1, 2 * n) - Fraction(1, 2) for j in range(n)]
+        ck, qk = fr(c[k]), fr(q[k])
+        # Σ_j c·(x+d_j δ) + q·(x+d_j δ)², and the count
+        per_axis.append([sum(ck * (x + d * w) + qk * (x + d * w) ** 2 for d in ds) for x, w in zip(fa, dl)])
+    cnt = int(np.prod(ns))
+    out = []
+    for idx in itertools.product(*[range(len(a)) for a in axes[::-1]]):
+        idx = idx[::-1]
+        tot = fr(c0) * cnt + sum(per_axis[k][i] * (cnt // ns[k]) for k, i in enumerate(idx))
+        out.append(tot if stat == 'sum' else tot / cnt)
+    return out
 
 
 def run_ss(case):
@@ -856,10 +993,37 @@ def run_ss(case):
         want = [aff(c0, c, p) * mult for p in pts]
         err = cmp_vals(got, want)
         if err is None or err > TOL:
-            bad.append(('supersampled-affine', 'supersampled evaluation (%s, oversampling %r) of an affine function differs from its direct evaluation' % (case['stat'], arg)))
+            bad.append(('supersampled-affine', 'supersampled evaluation (%s, oversampling %r, coordinate scale %s) of an affine function differs from its direct evaluation' % (case['stat'], arg, scale_label(case.get('S', 1.0)))))
+    else:
+        # quadratic generator: the sub-pixel positions matter (dither offsets x local cell width), brute-force reference
+        err = cmp_vals(got, ss_reference(axes, c0, c, q, ns, case['stat']))
+        if err is None or err > TOL:
+            bad.append(('supersampled-value', 'supersampled evaluation (%s, oversampling %r, coordinate scale %s) of a quadratic function differs from the mean over the dithered sub-pixels' % (case['stat'], arg, scale_label(case.get('S', 1.0)))))
     lines.append('C18 ss %s %s %s %s %s %s' % (case['stat'], rat(c0), rat_list(c), rat_list(q), rat_lists(axes), '[' + ','.join(str(n) for n in ns) + ']'))
     cmps.append(('ss', got, {}))
-    return bad, lines, cmps, {'affine': affine, 'dithers': cnt}
+    info = {'affine': affine, 'dithers': cnt}
+    if grid.is_regular:
+        # make_supersampled_grid on the same grid: its points must be the dithered sub-pixel positions
+        # x_i + delta * ((2j+1)/(2n) - 1/2)  (exact reference here; the model's `superAxis` through the op supergrid)
+        try:
+            sg = hcipy.make_supersampled_grid(grid, arg)
+            zero, delta, dims = [float(z) for z in grid.zero], [float(d) for d in grid.delta], [int(d) for d in grid.dims]
+            fine = [[float(v) for v in cc] for cc in sg.separated_coords]
+            okay = bool(sg.is_regular) and [int(d) for d in sg.dims] == [d * n for d, n in zip(dims, ns)] and len(fine) == nd
+            for k in range(nd if okay else 0):
+                want = [fr(zero[k]) + i * fr(delta[k]) + fr(delta[k]) * (Fraction(2 * j + 1, 2 * ns[k]) - Fraction(1, 2)) for i in range(dims[k]) for j in range(ns[k])]
+                err = cmp_vals(fine[k], want, scale=abs(delta[k]))
+                if err is None or err > TOL:
+                    okay = False
+            if not okay:
+                bad.append(('supersampled-grid-points', 'make_supersampled_grid(grid, %r) on a regular grid (coordinate scale %s) does not consist of the dithered sub-pixel positions of the grid' % (arg, scale_label(case.get('S', 1.0)))))
+            else:
+                lines.append('C18 supergrid %s %s %s %s' % (rat_list(zero), rat_list(delta), '[' + ','.join(str(d) for d in dims) + ']', '[' + ','.join(str(n) for n in ns) + ']'))
+                cmps.append(('supergrid', fine, {'scales': [abs(d) for d in delta]}))
+                info['supergrid'] = 1
+        except Exception as e:  # noqa
+            bad.append(('supersampled-grid-points', 'make_supersampled_grid raised %s: %s' % (type(e).__name__, str(e)[:80])))
+    return bad, lines, cmps, info
 
 
 
@@ -914,6 +1078,9 @@ def json_copy(x):
 def apply_op_real(grid, op, inplace):
     name, arg = op[0], (op[1] if len(op) > 1 else None)
     a = np.array(arg, dtype=float) if isinstance(arg, list) else arg
+    if name == 'assign':
+        grid.coords = grid.shifted(a).coords       # attribute assignment: same Grid object, new coordinates
+        return grid
     if inplace:
         if name == 'reverse':
             grid.reverse()
@@ -1165,17 +1332,20 @@ def gen_reuse(rng, big):
     cur = st
     for _ in range(int(rng.integers(1, 5 if big else 4))):
         name = str(rng.choice(REUSE_OPS))
+        target = str(rng.choice(['src', 'src', 'eval', 'eval']))
+        if target == 'eval' and rng.random() < 0.25:
+            name = 'assign'       # E.coords = <coordinates of a shifted grid>: the plainest in-place change of a Grid object
         if name == 'scale':
             f = [float(rng.choice([2.0, 0.5, -1.0, -2.0, 1.0])) for _ in range(nd)]
             op = ['scale', f[0] if (len(set(f)) == 1 or rng.random() < 0.4) else f]
             if cur['kind'] == 'unstructured' and isinstance(op[1], list) and False:
                 op = ['scale', f[0]]
-        elif name == 'shift':
-            op = ['shift', [pix * float(rng.integers(-6, 7)) / 2.0 for _ in range(nd)]]
+        elif name in ('shift', 'assign'):
+            op = [name, [pix * float(rng.integers(-6, 7)) / 2.0 for _ in range(nd)]]
         else:
             op = ['reverse']
-        steps.append({'target': str(rng.choice(['src', 'src', 'eval'])), 'op': op, 'inplace': bool(rng.random() < 0.5),
-                      'values': None, 'keep_interp': bool(rng.random() < 0.5)})
+        steps.append({'target': target, 'op': op, 'inplace': bool(rng.random() < 0.5) or name == 'assign',
+                      'values': None, 'keep_interp': bool(rng.random() < (0.7 if target == 'eval' else 0.5))})
     case = {'fam': 'reuse', 'S': S, 'src': st, 'eval': est, 'steps': steps, 'seed_values': int(rng.integers(0, 2 ** 31))}
     return case
 
@@ -1202,12 +1372,14 @@ def run_reuse(case):
             nd = len(st['axes'])
             c0, c = affine_coeffs(vr, nd)
             c = [ck / S for ck in c]
+            # half of the uses with a quadratic term: then the cell widths (derived from the grid object) matter
+            qq = [dyadic(vr, -2, 2, 1) / (S * S) if vr.random() < 0.5 else 0.0 for _ in range(nd)]
             try:
-                res = to_list(hcipy.evaluate_supersampled(lambda g: hcipy.Field(c0 + sum(ck * np.asarray(g.coords[k]) for k, ck in enumerate(c)), g), G, 2))
-                want = [aff(c0, c, q) for q in state_points(st)]
+                res = to_list(hcipy.evaluate_supersampled(lambda g: hcipy.Field(c0 + sum(ck * np.asarray(g.coords[k]) + qk * np.asarray(g.coords[k]) ** 2 for k, (ck, qk) in enumerate(zip(c, qq))), g), G, 2))
+                want = ss_reference(st['axes'], c0, c, qq, [2] * nd, 'mean')
                 err = cmp_vals(res, want)
                 if err is None or err > TOL:
-                    bad.append(('reuse-supersampled', '%s: supersampled affine function differs from its direct evaluation' % tag))
+                    bad.append(('reuse-supersampled', '%s: supersampled %s function differs from %s' % (tag, 'quadratic' if any(qq) else 'affine', 'the mean over its dithered sub-pixels' if any(qq) else 'its direct evaluation')))
             except Exception as e:  # noqa
                 bad.append(('reuse-supersampled', '%s: evaluate_supersampled raised %s' % (tag, type(e).__name__)))
             if not bad and st['kind'] == 'regular' and all(len(a) % 2 == 0 for a in st['axes']):
@@ -1273,6 +1445,12 @@ DIRECTED = [
     {'fam': 'uns', 'pts_src': [[0.75, 2.25], [4.0, 2.375], [-0.625, 0.375], [0.375, 3.875], [-0.625, -1.25], [1.875, -3.5], [1.625, -0.25],
                                [2.0, -3.125], [-1.25, -1.125], [-3.5, 1.5], [-0.5, -3.125]], 'affine': [2.0, [1.0, -3.0]],
      'pts': [[-4.125, 3.0], [1.875, -3.5], [-0.5, 2.0], [0.75, -1.734375], [1.625, -0.25], [0.859375, 1.78125]], 'route': 'unstructured-fill0'},
+    # 3-D scattered cloud (tetrahedra): inside, a vertex, on a hull facet, on a hull edge, outside
+    {'fam': 'uns', 'cloud': 'scattered3d', 'pts_src': [[0.0, 0.0, 0.0], [2.0, 0.0, 0.0], [0.0, 4.0, 0.0], [0.0, 0.0, 8.0], [0.5, 1.0, 1.0], [2.0, 4.0, 8.0]],
+     'affine': [1.0, [2.0, 3.0, -0.5]], 'pts': [[0.25, 0.5, 2.0], [0.5, 1.0, 1.0], [0.5, 1.0, 0.0], [1.0, 0.0, 0.0], [0.75, 1.5, 3.0], [-1.0, 0.0, 0.0]],
+     'route': 'unstructured-fill0'},
+    {'fam': 'uns', 'cloud': 'scattered3d', 'pts_src': [[0.0, 0.0, 0.0], [2.0, 0.0, 0.0], [0.0, 4.0, 0.0], [0.0, 0.0, 8.0], [0.5, 1.0, 1.0], [2.0, 4.0, 8.0]],
+     'vals': [1.0, -2.0, 4.0, 0.5, 3.0, 8.0], 'pts': [[0.25, 0.5, 2.0], [0.5, 1.0, 1.0], [1.0, 2.0, 4.0], [3.0, 3.0, 3.0]], 'route': 'dispatch'},
     # non-dyadic physical scale: the midpoint of a cell is a near-tie for the nearest interpolator (float and exact decision differ)
     {'fam': 'scale', 'S': 1e-08, 'src': {'kind': 'separated', 'axes': [[-1.125e-08, -6.25e-09, 1e-08], [-2.25e-08, -2.1250000000000002e-08]]},
      'values': {'affine': [-1.5, [-275000000.0, 50000000.0]]},
@@ -1340,6 +1518,8 @@ def check_case(ctx, case, all_lines, index):
         ctx.count('uns:points_inside_hull', info['n_inside'])
         ctx.count('uns:points_outside_hull', info['n_outside'])
         ctx.count('uns:points_on_hull_boundary', info['n_boundary'])
+        ctx.count('uns:ndim=%d' % info.get('nd', 2))
+        ctx.count('uns:points_located_exactly', info.get('n_located', 0))
         ctx.count('uns:' + ('affine' if 'affine' in case else 'random-values'))
         sig = (fam, case.get('cloud', 'scattered'), case.get('order'), info['n_src'], 'affine' in case, case['route'], info['npts'])
     elif fam == 'bin' and 'ss' in case:
@@ -1347,8 +1527,12 @@ def check_case(ctx, case, all_lines, index):
         ctx.count('bins:spelling:' + case['spell'])
         ctx.count('bins:' + ('uniform-factors' if len(set(case['ss'])) == 1 else 'different-factors'))
         ctx.count('bins:stat:' + case['stat'])
+        ctx.count('bins:' + ('regular' if not info.get('irregular') else 'separated-weighted' if info.get('weighted') else 'separated'))
+        ctx.count('bin:coordinate-scale:' + scale_label(case.get('S', 1.0)))
+        if info.get('weighted'):
+            ctx.count('bin:weighted-mean:coordinate-scale:' + scale_label(case.get('S', 1.0)))
         ctx.count('binpix:images', info.get('binpix', 0))
-        sig = (fam, tuple(case['dims']), tuple(case['ss']), case['spell'], case['stat'])
+        sig = (fam, tuple(case['dims']), tuple(case['ss']), case['spell'], case['stat'], info.get('irregular'), case.get('S', 1.0))
     elif fam == 'bin':
         ctx.count('bin:ndim=%d' % len(case['dims']))
         ctx.count('bin:s=%d' % case['s'])
@@ -1359,7 +1543,10 @@ def check_case(ctx, case, all_lines, index):
             ctx.count('bintl:' + case['stat'])
         ctx.count('binpix:images', info.get('binpix', 0))
         ctx.count('bin:' + ('regular' if case['regular'] else 'separated-weighted' if case['stat'] == 'mean' else 'separated'))
-        sig = (fam, tuple(case['dims']), case['s'], tuple(case['tshape']), case['stat'], case['regular'])
+        ctx.count('bin:coordinate-scale:' + scale_label(case.get('S', 1.0)))
+        if info.get('weighted'):
+            ctx.count('bin:weighted-mean:coordinate-scale:' + scale_label(case.get('S', 1.0)))
+        sig = (fam, tuple(case['dims']), case['s'], tuple(case['tshape']), case['stat'], case['regular'], case.get('S', 1.0))
     elif fam == 'scale':
         ctx.count('scale:source:' + info['kind'])
         ctx.count('scale:S=%g' % case['S'])
@@ -1372,13 +1559,17 @@ def check_case(ctx, case, all_lines, index):
             ctx.count('reuse:op:%s.%s:%s' % (stp['target'], stp['op'][0], 'in-place' if stp['inplace'] else 'copy'))
             if stp['target'] == 'eval' and stp['keep_interp']:
                 ctx.count('reuse:old-interpolator-on-changed-evaluation-grid')
+                if stp['inplace']:
+                    ctx.count('reuse:old-interpolator-on-the-same-evaluation-grid-object-changed-in-place:' + stp['op'][0])
         sig = (fam, info['kind'], info['ekind'], tuple((t['target'], t['op'][0], t['inplace']) for t in case['steps']))
     else:
         ctx.count('ss:stat:' + case['stat'])
+        ctx.count('ss:coordinate-scale:' + scale_label(case.get('S', 1.0)))
         ctx.count('ss:dirs:' + dirs_of(case['axes']))
         ctx.count('ss:' + ('affine' if info.get('affine') else 'quadratic'))
         ctx.count('ss:dithers', info.get('dithers', 0))
-        sig = (fam, tuple(len(a) for a in case['axes']), tuple(case['ns']), case['stat'], info.get('affine'))
+        ctx.count('ss:supersampled-grids-compared', info.get('supergrid', 0))
+        sig = (fam, tuple(len(a) for a in case['axes']), tuple(case['ns']), case['stat'], info.get('affine'), case.get('S', 1.0))
     ctx.case({k: v for k, v in case.items() if k not in ('vals',)} if ctx.evaluations % 97 == 0 else None, nontrivial_key=sig)
     base = len(all_lines)
     all_lines += lines
@@ -1393,11 +1584,23 @@ def parse_vals(tok):
 
 
 def compare_model(ctx, out, case, cmps, base, had_bad):
-    if had_bad:
-        return
     for k, (stream, got, opt) in enumerate(cmps):
+        if had_bad and stream != 'simplex-loc':
+            # the oracle already failed on this case; only the exact point location (which the key of the violation
+            # rests on) is still compared with the model
+            continue
         resp = out[base + k]
         ctx.traces_validated += 1
+        if stream == 'simplex-loc':
+            loc, lam = got
+            want = 'ok %s %s' % (loc, '[' + ','.join(str(x.numerator) if x.denominator == 1 else '%d/%d' % (x.numerator, x.denominator) for x in lam) + ']')
+            mine = resp.split()
+            ok = len(mine) == 3 and mine[1] == loc and parse_vals(mine[2]) == list(lam)
+            ctx.count('simplex-loc:' + loc)
+            if not ok:
+                ctx.disagree('C18 simplex-loc', {'case': case, 'model': resp, 'harness': want})
+                return
+            continue
         if not resp.startswith('ok'):
             ctx.disagree('C18 ' + stream, {'case': case, 'model': resp, 'impl': got})
             return
@@ -1429,7 +1632,14 @@ def compare_model(ctx, out, case, cmps, base, had_bad):
                 return
             ctx.count('near-uns:ties', sum(1 for grp in groups if len(set(grp)) > 1))
             continue
-        if stream == 'lin-tri':
+        if stream == 'supergrid':
+            axes_m = [parse_vals(t) for t in body.split(';')]
+            errs = [cmp_vals(g, w, scale=sc) for g, w, sc in zip(got, axes_m, opt['scales'])] if len(axes_m) == len(got) else [None]
+            if any(e is None or e > TOL for e in errs):
+                ctx.disagree('C18 supergrid', {'case': case, 'model': resp, 'impl': got})
+                return
+            continue
+        if stream in ('lin-tri', 'lin-simplex'):
             want = [None if body == 'nan' else Fraction(body)]
             if want[0] is None:
                 ctx.boundary_skipped += 1       # SciPy put the point into a degenerate (zero-area) simplex
